@@ -28,7 +28,7 @@ CLAIMED = {
                   'outputs after the history identical to the baseline (symbolic identity, z3 on differences), module-level state digest unchanged (induction step for longer histories), autograd on/off identical.', ref='4 C15',
              note=BASE_NOTE + ' THREADS: no interleaving is explored; only the non-interference premises (no writes to shared or argument state) are decided, from which schedule independence follows if torch kernels and dict are thread-safe.'),
  'C16': dict(text='PARTIAL claim: dtype flow over 8 module/input precision combinations (tags + torch kernel dtype errors modelled, compared with real torch), converted == constructed module, float32 tap quantisation bound '
-                  '|T32-T64| <= 64 eps32 gain for all inputs (z3), strided/sliced/transposed symbolic views == contiguous copies.', ref='4 C16',
+                  '|T32-T64| <= 64 eps32 gain for all inputs (z3), strided/sliced/transposed symbolic views == contiguous copies; no forward division of a scattering layer can meet a zero divisor on |x|<=1 incl. magbias 0 (interval enclosure of every reciprocal atom, else exact witness replayed).', ref='4 C16',
              note=BASE_NOTE + ' NOT decided: floating-point rounding of the arithmetic inside ATen/oneDNN kernels (accumulation order unspecified, not encodable); a cancellation-prone reformulation is invisible to this check.'),
  'C08': dict(text='both scattering layers run on input atoms; every sqrt is purified, so each output is a linear form or sqrt(q)+c with q an exact polynomial: lowpass channels vs the pooled reference lowpass (linear queries), '
                   'c = -magbias exactly and q == re_ref^2+im_ref^2(+colour)+b^2 composed from dtcwt.Transform2d basis responses (polynomial tolerance queries, rounding/interval lemma + z3), second order compositionally '
